@@ -1,2 +1,109 @@
-(* Property C03 - statements only (proofs in Proofs/C03.v). Not built yet. *)
-From SC.Model Require Import Base.
+(* Property C03 - a text is a straight-line program: later lines see the latest binding.
+   STATEMENTS ONLY (proofs: Proofs/C03.v).
+   Model functions: Interp.execute_ast (AAssignment stores the value only after the right-hand
+   side evaluated; AVariable reads the value at use time), Base.assoc / assoc_insert (the
+   session's BTreeMap), Parser.parse / parse_assignment / assign_name_loop (name = lower-cased
+   concatenation of the tokens left of '='; a new name is registered at parse time),
+   Rules.find_location / pick_variable (closest-then-longest match), Match.info_eq_token,
+   Api.execute_text and SessionLemmas.eval_lines (a text = the fold of execute_text over its
+   lines, threading the variables).
+   Spec: Spec/Env.v (env = association list, most recent binding first; step / run / latest). *)
+From SC.Model Require Import Base Num Types Config Case Match Post Parser Items Interp Rules.
+From SC.Spec Require Import Expr Env.
+From SC.Proofs Require Import C03.
+
+(* ---- the session's map: lookup after insert; no sortedness assumption is needed ---- *)
+Theorem C03_assoc_insert_lookup : forall (A : Type) (k k' : str) (v : A) (l : list (str * A)),
+  assoc k' (assoc_insert k v l) = if str_eqb k' k then Some v else assoc k' l.
+Proof. exact @assoc_insert_lookup. Qed.
+
+Section WithNum.
+Context {F : Type} {NF : Num F}.
+Variable bexec : config F -> str -> res (option F).
+
+(* ---- a right-hand side (assignment-free tree) reads the variables only through the values
+   the names denote at that moment, and never changes the session ---- *)
+Theorem C03_rhs_reads_values : forall cfg (a : ast F) vs, pure a = true ->
+  execute_ast bexec cfg vs a = do r <- eval_pure bexec cfg (var_value vs) a; Ok (r, vs).
+Proof. exact (exec_pure bexec). Qed.
+
+(* ---- `name = e`: the value is stored only after e evaluated; a failing e leaves the session
+   exactly as it was ---- *)
+Theorem C03_assign_exec : forall cfg vs name (e : ast F), pure e = true ->
+  execute_ast bexec cfg vs (AAssignment name e) =
+  do r <- eval_pure bexec cfg (var_value vs) e;
+  Ok (r, match r with IOk v => store name v vs | IErr _ => vs end).
+Proof. exact (exec_assign bexec). Qed.
+
+(* after the line, lookup of the name gives the value; all other names are unchanged *)
+Theorem C03_assign_binds : forall cfg vs name vi (e : ast F) v,
+  pure e = true -> assoc name vs = Some vi ->
+  eval_pure bexec cfg (var_value vs) e = Ok (IOk v) ->
+  exists vs', execute_ast bexec cfg vs (AAssignment name e) = Ok (IOk v, vs') /\
+    assoc name vs' = Some {| v_tokens := v_tokens vi; v_data := v |} /\
+    (forall k, k <> name -> assoc k vs' = assoc k vs).
+Proof. exact (assign_binds bexec). Qed.
+
+Theorem C03_failed_assignment_preserves_session : forall cfg vs name (e : ast F) m,
+  pure e = true -> eval_pure bexec cfg (var_value vs) e = Ok (IErr m) ->
+  execute_ast bexec cfg vs (AAssignment name e) = Ok (IErr m, vs).
+Proof. exact (assign_failed bexec). Qed.
+
+(* every line tree (a use, or an assignment of an assignment-free tree): no name other than the
+   assigned one changes, the interpreter creates and removes no variable, an error changes
+   nothing *)
+Theorem C03_line_frame : forall cfg vs (a : ast F) r vs',
+  line_ast a = true -> execute_ast bexec cfg vs a = Ok (r, vs') ->
+  (forall k, assigned a <> Some k -> assoc k vs' = assoc k vs) /\
+  (forall k, assoc_mem k vs' = assoc_mem k vs) /\
+  match r with
+  | IErr _ => vs' = vs
+  | IOk v => match assigned a with
+             | Some n => vs' = store n v vs
+             | None => vs' = vs
+             end
+  end.
+Proof. exact (exec_line_frame bexec). Qed.
+
+(* ---- a binding holds a value, not a reference: `y = x` stores the current value of x; no
+   later line that assigns another name (in particular x) changes what y holds ---- *)
+Theorem C03_value_not_reference : forall cfg vs x y vx vy,
+  assoc x vs = Some vx -> assoc y vs = Some vy ->
+  execute_ast bexec cfg vs (AAssignment y (AVariable x)) =
+    Ok (IOk (v_data vx), store y (v_data vx) vs) /\
+  assoc y (store y (v_data vx) vs) = Some {| v_tokens := v_tokens vy; v_data := v_data vx |} /\
+  forall (a : ast F) r vs2, line_ast a = true -> assigned a <> Some y ->
+    execute_ast bexec cfg (store y (v_data vx) vs) a = Ok (r, vs2) ->
+    assoc y vs2 = Some {| v_tokens := v_tokens vy; v_data := v_data vx |}.
+Proof. exact (copy_is_value bexec). Qed.
+
+(* ---- refinement of the reference semantics: for every program of assignment and use lines
+   (registration by the parser, then the interpreter) the results are those of Spec/Env.run,
+   line by line, and every name keeps denoting what the reference environment binds it to ---- *)
+Theorem C03_refines : forall cfg p vs en outs vs',
+  forallb (fun st => stmt_pure (fst st)) p = true -> Rel vs en ->
+  mrun bexec cfg vs p = Ok (outs, vs') ->
+  snd (run (spec_eval bexec cfg) spec_value en (map fst p)) = map Ok outs /\
+  Rel vs' (fst (run (spec_eval bexec cfg) spec_value en (map fst p))).
+Proof. exact (refines bexec). Qed.
+
+(* later lines see the latest binding: the value of the last assignment that evaluated *)
+Theorem C03_latest_binding : forall cfg p vs en outs vs' n,
+  forallb (fun st => stmt_pure (fst st)) p = true -> Rel vs en ->
+  mrun bexec cfg vs p = Ok (outs, vs') ->
+  var_value vs' n =
+  match latest spec_value n (lookup n en) (combine (map fst p) (map Ok outs)) with
+  | Some v => v | None => ANone end.
+Proof. exact (latest_binding bexec). Qed.
+
+End WithNum.
+
+Print Assumptions C03_assoc_insert_lookup.
+Print Assumptions C03_rhs_reads_values.
+Print Assumptions C03_assign_exec.
+Print Assumptions C03_assign_binds.
+Print Assumptions C03_failed_assignment_preserves_session.
+Print Assumptions C03_line_frame.
+Print Assumptions C03_value_not_reference.
+Print Assumptions C03_refines.
+Print Assumptions C03_latest_binding.
